@@ -365,14 +365,30 @@ impl Node {
             panic!("Unexpectedly called `Node::merge_here` where `another_root` is not root node")
         };
         
-        self.append_fangs(another_root_fangses);
+        self.merge_parts(another_root_fangses, another_root_handler, another_root_children, allow_override_handler)
+    }
 
-        if let Some(h) = another_root_handler {
+    /// merge fangs, handler and children of another node into `self`;
+    /// a child whose pattern `self` already has is merged into that one, not added beside it
+    fn merge_parts(
+        &mut self,
+        fangses:  FangsList,
+        handler:  Option<Handler>,
+        children: Vec<Node>,
+        allow_override_handler: bool
+    ) -> Result<(), String> {
+        self.append_fangs(fangses);
+
+        if let Some(h) = handler {
             self.set_handler(h, allow_override_handler)?;
         }
 
-        for ac in another_root_children {
-            self.append_child(ac)?
+        for ac in children {
+            let pattern = ac.pattern.clone().expect("Invalid child node: Child node must have pattern");
+            match self.machable_child_mut(pattern) {
+                Some(child) => child.merge_parts(ac.fangses, ac.handler, ac.children, allow_override_handler)?,
+                None => self.append_child(ac)?
+            }
         }
 
         Ok(())
